@@ -145,13 +145,16 @@ def rule_G(ctx):
     ctx.rule("G3", "the 'would empty a clone' skip protects clones only; scan over all data points in shuffled order", 1)
     ctx.rule("G4", "faithful selection: the returned tree is the candidate at the drawn index of the weighted list", 4)
 
+    from ..termflow import rewrite, rewrite_events
+    from ._premises import tree_vocabulary as _tv
+
     f = prog.fn("DataPointSampler._sample_tree")
     ex = extract(prog, f, **CI)
     sp = spec(prog, SPEC_DP_INNER, f, **CI)
     _selection(ctx, "G1", "G4", f, ex, "DataPointSampler._sample_tree")
     same_events(ctx, "G2", "DataPointSampler._sample_tree: candidates = copy, remove(old) + add(each clone), plus the outlier set iff enabled", f,
-                _dedupe(ex.calls(".log_p_one")), _dedupe(sp.calls(".log_p_one")), "candidates handed to log_p_one")
-    same(ctx, "G4", "DataPointSampler._sample_tree returns candidates[drawn index]", f, ex.result, sp.result, "returned tree")
+                _dedupe(rewrite_events(ex.calls(".log_p_one"), _tv)), _dedupe(rewrite_events(sp.calls(".log_p_one"), _tv)), "candidates handed to log_p_one")
+    same(ctx, "G4", "DataPointSampler._sample_tree returns candidates[drawn index]", f, rewrite(ex.result, _tv), rewrite(sp.result, _tv), "returned tree")
 
     g = prog.fn("PruneRegraphSampler.sample_tree")
     ex = extract(prog, g, **CI)
